@@ -154,14 +154,20 @@ func (s *ManagedServer) dequeueSave(ctx context.Context) {
 		// Wait for incoming save job.
 		select {
 		case <-s.saveQueue:
-		case <-ctx.Done():
-			return
-		}
+			// Wait for cooldown.
+			select {
+			case <-time.After(5 * time.Second):
+			case <-ctx.Done():
+			}
 
-		// Wait for cooldown.
-		select {
-		case <-time.After(5 * time.Second):
 		case <-ctx.Done():
+			// When both channels are ready, select picks one at random.
+			// Do not exit with a save job still in the queue.
+			select {
+			case <-s.saveQueue:
+			default:
+				return
+			}
 		}
 
 		// Clear save queue after cooldown.
